@@ -13,11 +13,11 @@ from ..core.framework import Ctx
 
 SPEC = {
     "modules": ["HC.Props.C12"],
-    "extracted": ["Guards", "Consts"],
+    "extracted": ["Guards", "Consts", "WsGuards"],
     "technique": "Lean 4 theorems over Except-valued transducer models of HTTPStream.app_send / WSStream.app_send (reject = no-op, one final head, end once, no CTL bytes — for arbitrary message sequences, by budget/potential induction) + differential execution of model and real stream objects on every short sequence of the ASGI send alphabet",
-    "level_text": "Proved in Lean for ARBITRARY message sequences (any length, any payloads): a message in a state the reference automaton forbids is rejected with the state and the wire untouched; an invalid payload (non-bytes or pseudo header names/values, CR/LF/NUL, non-str push path or text frame) is rejected before anything is emitted; at most one final response head and one end-of-body per request; nothing follows the end of the response; no CR, LF or NUL of an application header reaches the protocol layer.  The model is tied to the code by running every sequence up to length 3 (thorough: 4, sampled 5) over the alphabet x payload variants on the real HTTPStream and WSStream objects, step by step (events, exception class, state).",
+    "level_text": "Proved in Lean for ARBITRARY message sequences (any length, any payloads): a message in a state the reference automaton forbids is rejected with the state and the wire untouched; an invalid payload (non-bytes or pseudo header names/values, CR/LF/NUL, non-str push path or text frame) is rejected before anything is emitted; at most one final response head and one end-of-body per request; nothing follows the end of the response; no CR, LF or NUL of an application header reaches the protocol layer.  The model is tied to the code by running every sequence up to length 3 (thorough: 4, sampled 5) over the alphabet x payload variants on the real HTTPStream and WSStream objects, step by step (events, exception class, state); the WebSocket sequences are run against every kind of handshake (subprotocols offered, one offered, an empty Sec-WebSocket-Protocol header, no such header) and the guard that decides which subprotocol of websocket.accept is refused is regenerated from the source (HC/Extracted/WsGuards.lean) and proved to be the model's.",
     "level_note": "Trusted: Lean kernel; hand-written models HC/Stream/{Http,Ws}.lean tied by differential testing; extracted suppress_body / version sets; wsproto's LocalProtocolError conditions (connection-state machine) modelled and sampled; h11's own header validation is library behaviour.  'Raises' means any exception out of send().  http.response.trailers before the response start is treated as unspecified by the monitor (the code accepts it on HTTP/2; see DESIGN.md).",
-    "rule": "exhaustive enumeration of sequences over the per-protocol alphabet (message type x payload variant), quick: all of length <= 2 and a sample of length 3; thorough: all <= 3 and samples of 4-5; distinct = distinct sequences of (type, payload-class); non-trivial = contains at least one message that the reference automaton rejects",
+    "rule": "exhaustive enumeration of sequences over the per-protocol alphabet (message type x payload variant) - WebSocket: x handshake kind (what the client offered as subprotocols) -, quick: all of length <= 2 and a sample of length 3; thorough: all <= 3 and samples of 4-5; distinct = distinct sequences of (type, payload-class); non-trivial = contains at least one message that the reference automaton rejects",
     "trusted": ["wsproto Connection.send state conditions (OPEN / *_CLOSING) as modelled in HC.Stream.Ws.connSend"],
     "partial": ["http trailers-before-start (HTTP/2+) is outside the reject_iff theorem: the code deliberately accepts it (trailers-only response)"],
     "assumptions": ["header lists are lists of 2-tuples; messages are dicts (other shapes are outside the ASGI send alphabet)"],
@@ -72,6 +72,9 @@ def ws_alphabet() -> List[Tuple[str, dict]]:
         ("accept:ok", {"type": "websocket.accept"}),
         ("accept:sub_ok", {"type": "websocket.accept", "subprotocol": "chat"}),
         ("accept:sub_bad", {"type": "websocket.accept", "subprotocol": "nope"}),
+        # the subprotocol becomes a header value without passing through the header validation
+        ("accept:sub_crlf", {"type": "websocket.accept", "subprotocol": "chat\r\nset-cookie: x=1"}),
+        ("accept:sub_empty", {"type": "websocket.accept", "subprotocol": ""}),
         ("accept:hdr", {"type": "websocket.accept", "headers": [(b"x-extra", b"1")]}),
         ("accept:hdr_proto", {"type": "websocket.accept", "headers": [(b"sec-websocket-protocol", b"chat")]}),
         ("accept:hdr_pseudo", {"type": "websocket.accept", "headers": [(b":status", b"200")]}),
@@ -152,10 +155,20 @@ class HttpRef:
         self.st = impl_state
 
 
+def offered_subprotocols(headers) -> Optional[List[str]]:
+    """what the client offered (RFC 6455 4.2.1 item 8: a comma separated list; the last header counts, as for the server);
+    None = no Sec-WebSocket-Protocol header in the handshake"""
+    vals = [v for n, v in headers if n.lower() == b"sec-websocket-protocol"]
+    if not vals:
+        return None
+    return [t.strip() for t in vals[-1].decode("ascii").split(",")]
+
+
 class WsRef:
-    def __init__(self) -> None:
+    def __init__(self, offered: Optional[List[str]] = ("chat", "superchat")) -> None:
         self.st = "HANDSHAKE"
         self.have_resp = False
+        self.offered = offered
 
     def judge(self, m: dict) -> Optional[bool]:
         t = m["type"]
@@ -166,7 +179,9 @@ class WsRef:
                 return False
             sp = m.get("subprotocol")
             hs = m.get("headers", [])
-            return (sp is None or sp in ("chat", "superchat")) and headers_ok(hs) and not any(bytes(n).strip() == b"sec-websocket-protocol" for n, _ in hs)
+            # RFC 6455 4.2.2 /subprotocol/: "a value taken from the client's handshake"; nothing else may be named
+            sp_ok = sp is None or (isinstance(sp, str) and self.offered is not None and sp in self.offered and not any(ord(c) in CTL for c in sp))
+            return sp_ok and headers_ok(hs) and not any(bytes(n).strip() == b"sec-websocket-protocol" for n, _ in hs)
         if t == "websocket.close":
             return self.st in ("HANDSHAKE", "CONNECTED")
         if t == "websocket.send":
@@ -195,6 +210,17 @@ class WsRef:
 
 WS_HEADERS = [(b"host", b"x"), (b"upgrade", b"websocket"), (b"connection", b"upgrade"), (b"sec-websocket-key", b"dGhlIHNhbXBsZSBub25jZQ=="),
               (b"sec-websocket-version", b"13"), (b"sec-websocket-protocol", b"chat, superchat")]
+# what the client says about subprotocols in its handshake (None: no Sec-WebSocket-Protocol header at all)
+WS_OFFERS: Dict[str, Optional[bytes]] = {"offer": b"chat, superchat", "none": None, "empty": b"", "single": b"chat", "other": b"superchat,v2"}
+
+
+def ws_init(version: str, offer: str = "offer") -> dict:
+    hs = [h for h in WS_HEADERS if h[0] != b"sec-websocket-protocol"]
+    if WS_OFFERS[offer] is not None:
+        hs.append((b"sec-websocket-protocol", WS_OFFERS[offer]))
+    if version != "1.1":
+        hs = [h for h in hs if h[0] not in (b"upgrade", b"connection", b"sec-websocket-key")]
+    return {"version": version, "headers": hs}
 
 
 def _classes(seq) -> List[str]:
@@ -258,9 +284,9 @@ def check_http(ctx: Ctx, version: str, seqs: List[List[Tuple[str, dict]]]) -> No
                 ctx.disagree("stream.http", case, model[i], impl)
 
 
-def check_ws(ctx: Ctx, version: str, seqs: List[List[Tuple[str, dict]]]) -> None:
-    hs = WS_HEADERS if version == "1.1" else [h for h in WS_HEADERS if h[0] not in (b"upgrade", b"connection", b"sec-websocket-key")]
-    init = {"version": version, "headers": hs}
+def check_ws(ctx: Ctx, version: str, seqs: List[List[Tuple[str, dict]]], offer: str = "offer") -> None:
+    init = ws_init(version, offer)
+    offered = offered_subprotocols(init["headers"])
 
     async def runall():
         out = []
@@ -273,7 +299,10 @@ def check_ws(ctx: Ctx, version: str, seqs: List[List[Tuple[str, dict]]]) -> None
     for i, (seq, (steps, lib)) in enumerate(zip(seqs, obs)):
         ctx.evaluations += 1
         case = {"family": "ws", "version": version, "seq": _classes(seq)}
-        ref = WsRef()
+        if offer != "offer":
+            case["offer"] = offer
+        ctx.count(f"ws{version}.handshake_subprotocols", offer)
+        ref = WsRef(offered)
         finals, nontriv = 0, False
         for k, ((cls, m), o) in enumerate(zip(seq, steps[1:])):
             want = ref.judge(m)
@@ -282,6 +311,8 @@ def check_ws(ctx: Ctx, version: str, seqs: List[List[Tuple[str, dict]]]) -> None
             if want is False:
                 nontriv = True
             sig = {"family": "ws", "version": version, "msg": cls, "state": ref.st}
+            if offer != "offer":
+                sig["offer"] = offer
             if want is False and not raised:
                 ctx.violation("invalid_accepted", {**case, "at": k}, o, sig)
             if want is True and raised:
@@ -292,12 +323,16 @@ def check_ws(ctx: Ctx, version: str, seqs: List[List[Tuple[str, dict]]]) -> None
                 if ev[0] == "response":
                     if any(ord(c) in CTL for n, v in ev[2] for c in n + v):
                         ctx.violation("ctl_in_headers", {**case, "at": k}, ev, {"family": "ws", "version": version, "msg": cls})
+                    # a subprotocol the client did not offer never appears in the response head
+                    named = [v for n, v in ev[2] if n.lower() == "sec-websocket-protocol"]
+                    if any(offered is None or v not in offered for v in named) or len(named) > 1:
+                        ctx.violation("unoffered_subprotocol_sent", {**case, "at": k}, ev, sig)
                     finals += 1
             ref.advance(m, o["state"])
         if finals > 1:
             ctx.violation("two_final_heads", case, steps, {"family": "ws", "version": version})
         if nontriv:
-            ctx.distinct(["ws", version] + _classes(seq))
+            ctx.distinct(["ws", version, offer] + _classes(seq))
         ctx.sample(case, cap=4)
         if model is not None:
             ctx.disagreements_checked += 1
@@ -323,10 +358,15 @@ def run(ctx: Ctx) -> None:
     ctx.extra["exhaustive_sequence_length"] = full
     for version in ("1.1", "2"):
         check_http(ctx, version, _sequences(ctx, http_alphabet(version), full, samples))
-        check_ws(ctx, version, _sequences(ctx, ws_alphabet(), full, samples))
+        # every kind of handshake: what websocket.accept may name depends on what the client offered
+        for offer in WS_OFFERS:
+            check_ws(ctx, version, _sequences(ctx, ws_alphabet(), full, samples if offer == "offer" else {n: k // 4 for n, k in samples.items()}), offer)
 
 
 def replay(ctx: Ctx, case: dict) -> None:
     alpha = dict(http_alphabet(case["version"]) if case["family"] == "http" else ws_alphabet())
     seq = [(k, alpha[k]) for k in case["seq"]]
-    (check_http if case["family"] == "http" else check_ws)(ctx, case["version"], [seq])
+    if case["family"] == "http":
+        check_http(ctx, case["version"], [seq])
+    else:
+        check_ws(ctx, case["version"], [seq], case.get("offer", "offer"))
